@@ -579,8 +579,8 @@ func VerifC10StreamDeep() {
 }
 
 const (
-	c10StreamQuick = 6
-	c10StreamDeep  = 9
+	c10StreamQuick = 5
+	c10StreamDeep  = 8
 )
 
 // VerifC10StreamHugeLen: the non-p2p Decode on a 10-byte buffer holding a
